@@ -28,6 +28,9 @@ typedef struct Permutation3 Permutation3;
 #define BlockNumber_4_ctor0() { { nondet_int() }, { nondet_int() }, { nondet_int() }, { nondet_int() } }   /* BlockNumber(){} leaves the number indeterminate */
 #define BlockNumber_assign(p_, v_) (*(p_) = (v_))
 //@tu src/pomerol/StatesClassification.cpp
+/* twins for the other spelling of an increment (`++it` for `it++` and vice versa): same effect.  X_inc yields the iterator after the step
+ * (exact); X_postinc made from X_inc is void, so a use of its value does not compile (UNDECIDED) instead of being modelled wrongly */
+#define PartVecIt_inc(it_) (PartVecIt_postinc(it_), (it_))      /* pre-increment: the iterator itself, after the step */
 //@function Pomerol::BlockNumber::operator==(Pomerol::BlockNumber const&) const as BlockNumber_eq
 //@end
 //@tu src/pomerol/TwoParticleGF.cpp
